@@ -768,6 +768,17 @@ Proof.
   split; apply recoverable_read_once; assumption.
 Qed.
 
+(** Known class [OpenWalFilePruned] (known/C01.json): the event's WAL entry went to, or was
+    in, a log file that the flush worker pruned while no directory held the event. *)
+Definition OpenWalFilePruned (c : N) (ls : list label) (e : event) : Prop :=
+  In e (wlost (run (init c) ls)).
+
+Theorem durable_exactly_once_outside_known : forall c ls e,
+  NoDup (map ek (stored ls)) -> In e (durable ls) -> ~ OpenWalFilePruned c ls e ->
+  occ e (select (restart (crash (run (init c) ls))) (euid e)) = 1%nat /\
+  occ e (select (restart (run (init c) ls)) (euid e)) = 1%nat.
+Proof. exact survives_unless_pruned. Qed.
+
 (** nothing is invented, in any reachable state; in particular after a crash and restart *)
 Theorem no_phantom : forall c ls u e,
   In e (select (run (init c) ls) u) -> In e (stored ls) /\ euid e = u.
@@ -1396,4 +1407,238 @@ Proof.
       destruct (survives_unless_pruned c ls e Hn He (Hl e He)) as [H _].
       unfold occ in H. apply (count_occ_In ev_eq_dec). lia. }
   unfold len. lia.
+Qed.
+
+(** * Known findings as machine-checked witnesses, and non-vacuity examples *)
+
+Fixpoint nodupb (l : list N) : bool :=
+  match l with [] => true | x :: r => negb (memb x r) && nodupb r end.
+
+Lemma nodupb_NoDup : forall l, nodupb l = true -> NoDup l.
+Proof.
+  induction l as [|x r IH]; cbn [nodupb]; intros H; constructor; apply andb_true_iff in H; destruct H as [H1 H2].
+  - intros T. apply memb_In in T. rewrite T in H1. discriminate.
+  - apply IH, H2.
+Qed.
+
+Lemma inb_In : forall e l, existsb (ev_eqb e) l = true -> In e l.
+Proof.
+  intros e l H. apply existsb_exists in H. destruct H as [x [Hx E]]. apply ev_eqb_eq in E. subst; exact Hx.
+Qed.
+
+Definition one_lifetime (ls : list label) : bool :=
+  forallb (fun l => match l with LCrash | LRestart => false | _ => true end) ls.
+Definition no_manual_flush (ls : list label) : bool :=
+  forallb (fun l => match l with LFlushCmd => false | _ => true end) ls.
+
+Module Traces.
+  Definition E (k : N) : event := mkEv k 0 0.
+  Definition S (k : N) : label := LStore (E k).
+  Definition W := LWalWrite.
+  Definition Wr := LWalRotate.
+  Definition fb := LFw FwBegin.
+  Definition fm := LFw FwMkdir.
+  Definition fw0 := LFw (FwWrite 0).
+  Definition fi := LFw FwIndex.
+  Definition fp := LFw FwPublish.
+  Definition fc := LFw FwClear.
+  Definition wd (n : N) := LFw (FwWalDel n).
+  Definition fx := LFw FwWalClean.
+  Definition fd := LFw FwDone.
+  Definition K := LCrash.
+  Definition T := LRestart.
+
+  (** cap 4: three events, manual FLUSH run to completion, a fourth event *)
+  Definition manual_flush : list label :=
+    [S 1; W; S 2; W; S 3; W; LFlushCmd; fb; fm; fw0; fi; fp; fc; fx; fd; S 4; W].
+
+  (** cap 4, no manual FLUSH: crash during the second WAL rotation, restart,
+      further stores and rotations (the trace observed on the engine) *)
+  Definition id_drift : list label :=
+    [S 1; W; S 2; W; S 3; W; S 4; fb; W; Wr; fm; fw0; fi; fp; fc; wd 0; fx; fd;
+     S 5; W; S 6; W; S 7; W; S 8; fb; fm; W; Wr; K; T;
+     S 9; fb; W; fm; fw0; fi; fp; fc; wd 2; wd 1; fx; fd;
+     S 10; W; S 11; W; S 12; W; Wr; S 13; W; fb; fm; fw0; fi; fp; fc; wd 3; fx; fd;
+     S 14; W; S 15; W; S 16; W; Wr].
+
+  (** cap 2, the same drift in its shortest form: crash after the directory of an
+      unfinished flush was created; the restart takes the next segment id from the
+      directory list (1) but the WAL id from the log files (0) *)
+  Definition id_drift_short : list label :=
+    [S 1; S 2; W; fb; fm; K; T; S 3; W; Wr; fb; fm; fw0; fi; fp; fc; fx; fd; S 4; W].
+
+  (** cap 2, not a trace of the engine: a third write without the due rotation *)
+  Definition unordered : list label :=
+    [S 1; W; S 2; W; S 3; W; fb; fm; fw0; fi; fp; fc; fx; fd].
+
+  (** cap 2: the flush worker finishes before the WAL thread has written anything *)
+  Definition flush_outruns_wal : list label :=
+    [S 1; S 2; fb; fm; fw0; fi; fp; fc; fx; fd; W; W; Wr].
+
+  (** cap 2: a full cycle in lockstep, a second batch half way, one event not yet written *)
+  Definition lockstep_ok : list label :=
+    [S 1; W; S 2; W; Wr; fb; fm; fw0; fi; fp; fc; wd 0; fx; fd; S 3; W; S 4; W; Wr; fb; fm; fw0; S 5].
+
+  (** cap 2, two event types: the first memtable holds one event of each type *)
+  Definition two_types : list label :=
+    [LStore (mkEv 1 0 0); LStore (mkEv 2 0 1); LStore (mkEv 3 0 1); W; W; Wr; W].
+
+  (** cap 2, one type: the directory is written, the log not yet pruned *)
+  Definition leftover_dir : list label :=
+    [S 1; S 2; W; W; Wr; fb; fm; fw0; fi].
+End Traces.
+
+(** manual FLUSH of a partly filled memtable: the flush worker prunes the log file
+    the writer still has open; the next acknowledged event is lost by a crash *)
+Theorem manual_flush_refuted :
+  exists c ls e, 0 < c /\ one_lifetime ls = true /\ wal_ordered (init c) ls = true /\
+    NoDup (map ek (stored ls)) /\ In e (durable ls) /\
+    occ e (select (restart (crash (run (init c) ls))) (euid e)) = 0%nat /\
+    In e (wlost (run (init c) ls)).
+Proof.
+  exists 4, Traces.manual_flush, (Traces.E 4).
+  split; [reflexivity|]. split; [vm_compute; reflexivity|]. split; [vm_compute; reflexivity|].
+  split; [apply nodupb_NoDup; vm_compute; reflexivity|]. split; [apply inb_In; vm_compute; reflexivity|].
+  split; [vm_compute; reflexivity|apply inb_In; vm_compute; reflexivity].
+Qed.
+
+(** without any manual FLUSH: a crash and restart lets segment ids run ahead of WAL
+    file ids; later the open log file is pruned and durable events are lost *)
+Theorem id_drift_refuted :
+  exists c ls e, 0 < c /\ no_manual_flush ls = true /\
+    NoDup (map ek (stored ls)) /\ In e (durable ls) /\
+    occ e (select (restart (crash (run (init c) ls))) (euid e)) = 0%nat /\
+    In e (wlost (run (init c) ls)).
+Proof.
+  exists 4, Traces.id_drift, (Traces.E 16).
+  split; [reflexivity|]. split; [vm_compute; reflexivity|].
+  split; [apply nodupb_NoDup; vm_compute; reflexivity|]. split; [apply inb_In; vm_compute; reflexivity|].
+  split; [vm_compute; reflexivity|apply inb_In; vm_compute; reflexivity].
+Qed.
+
+Theorem id_drift_short_refuted :
+  exists c ls e, 0 < c /\ no_manual_flush ls = true /\
+    NoDup (map ek (stored ls)) /\ In e (durable ls) /\
+    occ e (select (restart (crash (run (init c) ls))) (euid e)) = 0%nat /\
+    In e (wlost (run (init c) ls)).
+Proof.
+  exists 2, Traces.id_drift_short, (Traces.E 4).
+  split; [reflexivity|]. split; [vm_compute; reflexivity|].
+  split; [apply nodupb_NoDup; vm_compute; reflexivity|]. split; [apply inb_In; vm_compute; reflexivity|].
+  split; [vm_compute; reflexivity|apply inb_In; vm_compute; reflexivity].
+Qed.
+
+(** hence the unconditional statement is false: a durable event can be lost *)
+Theorem durable_exactly_once_refuted :
+  ~ (forall c ls e, 0 < c -> NoDup (map ek (stored ls)) -> In e (durable ls) ->
+       occ e (select (restart (crash (run (init c) ls))) (euid e)) = 1%nat).
+Proof.
+  intros H. destruct manual_flush_refuted as (c & ls & e & Hc & _ & _ & Hn & Hd & H0 & _).
+  rewrite (H c ls e Hc Hn Hd) in H0. discriminate.
+Qed.
+
+(** the program-order hypothesis of the lockstep theorems cannot be dropped ... *)
+Theorem lockstep_needs_wal_order_refuted :
+  exists c ls e, 0 < c /\ lockstep ls = true /\ wal_ordered (init c) ls = false /\
+    NoDup (map ek (stored ls)) /\ In e (durable ls) /\
+    occ e (select (restart (crash (run (init c) ls))) (euid e)) = 0%nat.
+Proof.
+  exists 2, Traces.unordered, (Traces.E 3).
+  split; [reflexivity|]. split; [vm_compute; reflexivity|]. split; [vm_compute; reflexivity|].
+  split; [apply nodupb_NoDup; vm_compute; reflexivity|]. split; [apply inb_In; vm_compute; reflexivity|].
+  vm_compute; reflexivity.
+Qed.
+
+(** ... and in the lockstep fragment the ghost list need not be empty (its entries
+    are then in a published directory, [lockstep_wlost_in_dirs]) *)
+Theorem lockstep_wlost_empty_refuted :
+  exists c ls, 0 < c /\ lockstep ls = true /\ wal_ordered (init c) ls = true /\
+    wlost (run (init c) ls) <> [].
+Proof.
+  exists 2, Traces.flush_outruns_wal.
+  split; [reflexivity|]. split; [vm_compute; reflexivity|]. split; [vm_compute; reflexivity|].
+  vm_compute. discriminate.
+Qed.
+
+(** COUNT after recovery: the in-memory rows are counted whatever their type ... *)
+Theorem count_type_blind_refuted :
+  exists c ls u, 0 < c /\ lockstep ls = true /\ wal_ordered (init c) ls = true /\
+    NoDup (map ek (stored ls)) /\ wlost (run (init c) ls) = [] /\
+    select (restart (crash (run (init c) ls))) u = of_uid u (durable ls) /\
+    count (restart (crash (run (init c) ls))) u <> len (select (restart (crash (run (init c) ls))) u).
+Proof.
+  exists 2, Traces.two_types, 0.
+  split; [reflexivity|]. split; [vm_compute; reflexivity|]. split; [vm_compute; reflexivity|].
+  split; [apply nodupb_NoDup; vm_compute; reflexivity|]. split; [vm_compute; reflexivity|].
+  split; [vm_compute; reflexivity|vm_compute; discriminate].
+Qed.
+
+(** ... and rows present in a leftover directory and in the log are counted twice *)
+Theorem count_double_refuted :
+  exists c ls u, 0 < c /\ lockstep ls = true /\ wal_ordered (init c) ls = true /\
+    NoDup (map ek (stored ls)) /\ wlost (run (init c) ls) = [] /\
+    select (restart (crash (run (init c) ls))) u = of_uid u (durable ls) /\
+    count (restart (crash (run (init c) ls))) u = 2 * len (select (restart (crash (run (init c) ls))) u) /\
+    len (select (restart (crash (run (init c) ls))) u) = 2.
+Proof.
+  exists 2, Traces.leftover_dir, 0.
+  split; [reflexivity|]. split; [vm_compute; reflexivity|]. split; [vm_compute; reflexivity|].
+  split; [apply nodupb_NoDup; vm_compute; reflexivity|]. split; [vm_compute; reflexivity|].
+  split; [vm_compute; reflexivity|split; vm_compute; reflexivity].
+Qed.
+
+(** ** the hypotheses of the implications are satisfiable *)
+
+(** [survives_unless_pruned]: on a history with a manual FLUSH, a crash and a restart,
+    where another event was pruned *)
+Example survives_nonvacuous :
+  exists c ls e, NoDup (map ek (stored ls)) /\ In e (durable ls) /\ ~ In e (wlost (run (init c) ls)) /\
+    one_lifetime ls = false /\ no_manual_flush ls = false /\ wlost (run (init c) ls) <> [].
+Proof.
+  exists 4, (Traces.manual_flush ++ [LCrash; LRestart; Traces.S 5; LWalWrite]), (Traces.E 5).
+  split; [apply nodupb_NoDup; vm_compute; reflexivity|]. split; [apply inb_In; vm_compute; reflexivity|].
+  split; [vm_compute; intros [H|[]]; discriminate H|]. split; [reflexivity|]. split; [reflexivity|].
+  vm_compute; discriminate.
+Qed.
+
+(** [count_covers_durable]: a history with a crash and a restart in which nothing durable was pruned *)
+Example count_covers_nonvacuous :
+  exists c ls u, NoDup (map ek (stored ls)) /\
+    (forall e, In e (durable ls) -> ~ In e (wlost (run (init c) ls))) /\
+    one_lifetime ls = false /\ of_uid u (durable ls) <> [].
+Proof.
+  exists 2, (Traces.lockstep_ok ++ [LCrash; LRestart; Traces.S 6; LWalWrite]), 0.
+  split; [apply nodupb_NoDup; vm_compute; reflexivity|].
+  assert (E : wlost (run (init 2) (Traces.lockstep_ok ++ [LCrash; LRestart; Traces.S 6; LWalWrite])) = [])
+    by (vm_compute; reflexivity).
+  rewrite E. split; [intros e _ []|]. split; [reflexivity|vm_compute; discriminate].
+Qed.
+
+(** [no_phantom], [no_phantom_after_crash]: a result can be non-empty *)
+Example no_phantom_nonvacuous :
+  exists c ls u e, In e (select (run (init c) ls) u) /\ In e (select (restart (crash (run (init c) ls))) u).
+Proof.
+  exists 2, Traces.lockstep_ok, 0, (Traces.E 3). split; apply inb_In; vm_compute; reflexivity.
+Qed.
+
+(** the lockstep theorems: a trace with a full flush cycle satisfies every hypothesis *)
+Example lockstep_nonvacuous :
+  exists c ls e, 0 < c /\ lockstep ls = true /\ wal_ordered (init c) ls = true /\
+    wal_idle_at_prune (init c) ls = true /\ NoDup (map ek (stored ls)) /\ In e (durable ls) /\
+    dirs (run (init c) ls) <> [] /\ pending ls <> [].
+Proof.
+  exists 2, Traces.lockstep_ok, (Traces.E 4).
+  split; [reflexivity|]. split; [vm_compute; reflexivity|]. split; [vm_compute; reflexivity|].
+  split; [vm_compute; reflexivity|]. split; [apply nodupb_NoDup; vm_compute; reflexivity|].
+  split; [apply inb_In; vm_compute; reflexivity|]. split; vm_compute; discriminate.
+Qed.
+
+(** [lockstep_wlost_in_dirs] has a non-empty ghost list to talk about *)
+Example wlost_in_dirs_nonvacuous :
+  exists c ls e, 0 < c /\ lockstep ls = true /\ wal_ordered (init c) ls = true /\
+    In e (wlost (run (init c) ls)).
+Proof.
+  exists 2, Traces.flush_outruns_wal, (Traces.E 1).
+  split; [reflexivity|]. split; [vm_compute; reflexivity|]. split; [vm_compute; reflexivity|].
+  apply inb_In; vm_compute; reflexivity.
 Qed.
